@@ -892,10 +892,11 @@ def extract_fn(gen, f, probe=False):
       #      binding X is spelled C[I] (reads through Index; `C[I].set_flags(e);` is the IndexMut call R6 turns into C.verif_set_flags(I, e)):
       #      { let vx_nN = C.len(); let mut vx_iN: usize = 0; while vx_iN < vx_nN { let I = vx_iN; vx_iN += 1; B[X := C[I]] } }
       hdr = body.s[st:brace]
-      m = re.match(r"for\s+\(\s*(\w+)\s*,\s*(\w+)\s*\)\s+in\s+([\w\.]+)\.iter_mut\(\)\.enumerate\(\)\s*$", hdr, re.S)
+      m = re.match(r"for\s+\(\s*(\w+)\s*,\s*(\w+)\s*\)\s+in\s+([\w\.]+)\.iter_mut\(\)\.enumerate\(\)(?:\.skip\(([\w\.\(\) \+\-]+)\))?\s*$", hdr, re.S)
       if not m:
-        raise VxError("for-loop #%d header of %s::%s is not `for (i, x) in c.iter_mut().enumerate()`: %r (anchor lost)" % (ordn, f.file, f.name, hdr))
+        raise VxError("for-loop #%d header of %s::%s is not `for (i, x) in c.iter_mut().enumerate()[.skip(n)]`: %r (anchor lost)" % (ordn, f.file, f.name, hdr))
       iv, xv, cont = m.group(1), m.group(2), m.group(3)
+      skip_e = m.group(4)   # `.enumerate().skip(n)`: the same loop starting at index min(n, len)
       gen.drops.append({"rule": "R9e", "at": "%s:%s" % (where, body.o[st]), "what": "for (%s, %s) in %s.iter_mut().enumerate() -> indexed while loop, %s spelled %s[%s] (vx_n%d/vx_i%d)" % (iv, xv, cont, xv, cont, iv, ordn, ordn)})
       o0 = body.o[st]
       cl = match_close(mask, brace)
@@ -908,7 +909,8 @@ def extract_fn(gen, f, probe=False):
           add_op(a, b + sm.end(), "%s.verif_set_flags(%s, " % (cont, iv), body.o[a])
         else:
           add_op(a, b, "%s[%s]" % (cont, iv), body.o[a])
-      add_op(st, brace, "{ let vx_n%d = %s.len(); let mut vx_i%d: usize = 0;\n while vx_i%d < vx_n%d " % (ordn, cont, ordn, ordn, ordn), o0)
+      start_e = "0" if not skip_e else "(if %s < vx_n%d { %s } else { vx_n%d })" % (skip_e, ordn, skip_e, ordn)
+      add_op(st, brace, "{ let vx_n%d = %s.len(); let mut vx_i%d: usize = %s;\n while vx_i%d < vx_n%d " % (ordn, cont, ordn, start_e, ordn, ordn), o0)
       ins2 = [("\n      invariant\n        vx_i%d <= vx_n%d, %s@.len() == vx_n%d,\n" % (ordn, ordn, cont, ordn), gen.tag({"kind": "kw", "fn": qual}))]
       if spec.get("invariant"):
         ins2 += _clause_lines(gen, spec["invariant"], qual, "invariant", "        ")
